@@ -115,6 +115,28 @@ func poolHistory(c *fw.Ctx, steps int) {
 	if r.Chance(1, 3) {
 		inputs[0] = nil
 	}
+	// malformed inputs: a well-formed prefix (so that fields ARE recorded) followed by a dangling key,
+	// or the last byte cut off — Decode must fail and whatever it recorded must not leak into a later result
+	malformed := map[int]bool{}
+	if r.Chance(1, 2) {
+		for k := 0; k < 1+r.Intn(2); k++ {
+			src := inputs[len(inputs)-1-k%len(inputs)]
+			if len(src) < 2 {
+				continue
+			}
+			var bad []byte
+			if r.Bool() {
+				bad = append(append([]byte{}, src...), 0x08) // field 1, varint, no value
+			} else {
+				bad = append(append([]byte{}, src...), 0x12, 0x05, 0x41) // field 2, 5 bytes declared, 1 present
+			}
+			if _, err := lazyproto.Decode(bad, def.toDef()); err == nil {
+				continue
+			}
+			malformed[len(inputs)] = true
+			inputs = append(inputs, bad)
+		}
+	}
 	header := fmt.Sprintf("L 1 %s", def.String())
 	req := []string{header}
 	var rep []string
@@ -122,7 +144,7 @@ func poolHistory(c *fw.Ctx, steps int) {
 	objID := map[*lazyproto.DecodeResult]int{}
 	nextH, nextObj := 0, 0
 	var held []heldValue
-	reused, decoded := 0, 0
+	reused, decoded, phantom := 0, 0, 0
 	desc := fmt.Sprintf("def=%s %s", def.String(), opt)
 	violated := false
 	violate := func(sig, what, expected, got string) {
@@ -168,7 +190,8 @@ func poolHistory(c *fw.Ctx, steps int) {
 		any := liveHandles(func(h *lzHandle) bool { return true })
 		switch {
 		case x < 25 || len(any) == 0: // decode
-			in := inputs[r.Intn(len(inputs))]
+			inIdx := r.Intn(len(inputs))
+			in := inputs[inIdx]
 			var res *lazyproto.DecodeResult
 			var derr error
 			if run(func() { res, derr = dec.Decode(in) }) {
@@ -181,9 +204,13 @@ func poolHistory(c *fw.Ctx, steps int) {
 			lastClosed = -1
 			switch {
 			case derr != nil:
-				req = append(req, fmt.Sprintf("decode %d %s new:%d", nextH, hexs(in), nextObj))
+				// which object the failed pass used is not observable: the model takes a new one
+				phantom++
+				req = append(req, fmt.Sprintf("decode %d %s new:%d", nextH, hexs(in), 900000+phantom))
 				rep = append(rep, "err")
-				violate("pool/decode-error", "Decode failed on a well-formed message", "ok", derr.Error())
+				if !malformed[inIdx] {
+					violate("pool/decode-error", "Decode failed on a well-formed message", "ok", derr.Error())
+				}
 			case res == nil:
 				req = append(req, fmt.Sprintf("decode %d %s new:%d", nextH, hexs(in), nextObj))
 				rep = append(rep, "nil")
@@ -220,20 +247,24 @@ func poolHistory(c *fw.Ctx, steps int) {
 			if !opt.fast && hd.res != nil && strings.HasPrefix(got, "ok") {
 				if fd, err := hd.res.FieldData(tag); err == nil {
 					// the first typed slice accessor that fits the field's wire type
-					var tv interface{}
+					// every typed slice accessor that fits the field's wire type and value range
 					for _, try := range []func() (interface{}, error){
-						func() (interface{}, error) { return fd.Int64Values() },
+						func() (interface{}, error) { return fd.BoolValues() },
 						func() (interface{}, error) { return fd.StringValues() },
+						func() (interface{}, error) { return fd.UInt32Values() },
+						func() (interface{}, error) { return fd.Int32Values() },
+						func() (interface{}, error) { return fd.SInt32Values() },
+						func() (interface{}, error) { return fd.UInt64Values() },
+						func() (interface{}, error) { return fd.Int64Values() },
+						func() (interface{}, error) { return fd.SInt64Values() },
 						func() (interface{}, error) { return fd.Fixed32Values() },
+						func() (interface{}, error) { return fd.Fixed64Values() },
+						func() (interface{}, error) { return fd.Float32Values() },
 						func() (interface{}, error) { return fd.Float64Values() },
 					} {
-						if v, err := try(); err == nil && reflect.ValueOf(v).Len() > 0 {
-							tv = v
-							break
+						if tv, err := try(); err == nil && reflect.ValueOf(tv).Len() > 0 {
+							held = append(held, heldValue{what: fmt.Sprintf("%T values of tag %d of handle %d (nested=%v)", tv, tag, h, hd.nested), typed: tv, typedSnap: fmt.Sprint(tv)})
 						}
-					}
-					if tv != nil && reflect.ValueOf(tv).Len() > 0 {
-						held = append(held, heldValue{what: fmt.Sprintf("%T values of tag %d of handle %d (nested=%v)", tv, tag, h, hd.nested), typed: tv, typedSnap: fmt.Sprint(tv)})
 					}
 				}
 			}
@@ -402,8 +433,10 @@ func poolHistory(c *fw.Ctx, steps int) {
 	}
 	for i := 0; i < 3; i++ {
 		if run(func() {
-			if res, err := dec.Decode(inputs[len(inputs)-1]); err == nil && res != nil {
-				res.Close()
+			for _, in := range inputs {
+				if res, err := dec.Decode(in); err == nil && res != nil {
+					res.Close()
+				}
 			}
 		}) {
 			req = append(req, "decode+close <after the history>")
